@@ -882,8 +882,45 @@ func (ex *Exec) jump(s *State, fr *Frame, from, to *ssa.BasicBlock) {
 			}
 		}
 	}
+	// leaving a loop from any other block (a second condition of a compound guard, a break): the
+	// exit clauses are owed on every edge out of the loop, not only on the head's. Edges into a
+	// block that only panics are exempt.
+	if !s.dead {
+		for _, l := range ex.prog.LoopsOf(fr.fn).Loops {
+			if l.Head == from || !l.Blocks[from] || l.Blocks[to] || panicsOnly(to) {
+				continue
+			}
+			spec := ex.loopSpecFor(fr, l.Head)
+			if spec == nil || len(spec.ExitEnsures) == 0 {
+				continue
+			}
+			fnName := normName(fr.fn.RelString(ex.prog.SSA.Pkg))
+			env := &SpecEnv{ex: ex, cur: s, old: ex.entryOf(fr), vars: map[string]Value{}, fn: fr.fn, fr: fr}
+			pos := l.Pos
+			if len(from.Instrs) > 0 && from.Instrs[len(from.Instrs)-1].Pos().IsValid() {
+				pos = from.Instrs[len(from.Instrs)-1].Pos()
+			}
+			for i, c := range spec.ExitEnsures {
+				label := c.Label
+				if label == "" {
+					label = fmt.Sprintf("exit#%d", i+1)
+				}
+				ex.emit(s, "invariant", fmt.Sprintf("%s/%s/loop%d/%s/exit_from(b%d->b%d)", ex.layer, fnName, l.Ordinal, label, from.Index, to.Index), env.evalProve(c.Expr), pos, c.Src)
+			}
+		}
+	}
 	fr.prev = from
 	ex.runBlock(s, fr, to, 0)
+}
+
+// panicsOnly: the block ends in a panic (a compiler-inserted or explicit abort, not a way out of
+// the loop that a caller observes as a normal result).
+func panicsOnly(b *ssa.BasicBlock) bool {
+	if len(b.Instrs) == 0 {
+		return false
+	}
+	_, ok := b.Instrs[len(b.Instrs)-1].(*ssa.Panic)
+	return ok
 }
 
 // obName names a safety obligation by function, kind and the source text of the
